@@ -91,16 +91,19 @@ type StrategyChoice struct {
 
 // Config fixes everything a fresh instance is built from.
 type Config struct {
-	Faces       []FaceSpec // nil = StdFaces()
-	FibAlgo     string     // "nametree" (default) or "hashtable"
-	HashtableM  uint16     // virtual node depth of the hash-table FIB (default 5 as shipped)
-	Routes      []Route
-	Strategies  []StrategyChoice
-	CsCapacity  int // default 1024
-	CsAdmit     bool
-	CsServe     bool
-	DnlLifetime time.Duration // default 6 s as shipped
-	Regions     []string      // producer regions (network region table)
+	Faces      []FaceSpec // nil = StdFaces()
+	FibAlgo    string     // "nametree" (default) or "hashtable"
+	HashtableM uint16     // virtual node depth of the hash-table FIB (default 5 as shipped)
+	Routes     []Route
+	Strategies []StrategyChoice
+	CsCapacity int // default 1024
+	// CsCapacityExact: take CsCapacity literally, so that capacity 0 (a legal management value:
+	// every admitted Data is evicted again at once) can be configured. Without it 0 = default.
+	CsCapacityExact bool
+	CsAdmit         bool
+	CsServe         bool
+	DnlLifetime     time.Duration // default 6 s as shipped
+	Regions         []string      // producer regions (network region table)
 	// ThreadID is the id of the DRIVEN forwarding thread (default 0). With ThreadID > 0 the
 	// forwarder has Threads (default ThreadID+1) real threads registered in fw.Threads and
 	// dispatch; only the driven one is ever run. Packets the link service dispatches to another
@@ -249,7 +252,7 @@ func New(cfg Config) *Sim {
 	if cfg.HashtableM == 0 {
 		cfg.HashtableM = 5
 	}
-	if cfg.CsCapacity == 0 {
+	if cfg.CsCapacity == 0 && !cfg.CsCapacityExact {
 		cfg.CsCapacity = 1024
 	}
 	if cfg.DnlLifetime == 0 {
